@@ -21,7 +21,10 @@ DEADLINE = {"quick": 150, "thorough": 1800}
 RULE = ("every text of the grammar (identifier/tag value/string texts of length <= 6 (quick) / 7 (thorough) over "
         "{a , SP = \" \\ e-acute} in 10 line templates; every numeric spelling [+-]?d*(.d*)?([eE][+-]?d*)?[iuf]? with <= 2 "
         "digits per part + boundary integers + near-miss list; timestamps x precisions; all ordered pairs of 40 "
-        "valid/odd/invalid lines x separators) is evaluated; distinct_nontrivial = distinct (precision,text) accepted "
+        "valid/odd/invalid lines x separators) is evaluated; every accepted batch is additionally shipped through the row "
+        "batch codec (FastMarshalMultiRows -> FastUnmarshalMultiRows into the store-side decoder state) and must read back "
+        "identically; every ordered pair of 60 (quick) / 156 (thorough) request bodies of one or two lines differing in "
+        "measurement, tag count and field set goes through ONE reused store-side decoder; distinct_nontrivial = distinct (precision,text) accepted "
         "by the real write path or by the reference reader (texts rejected by both are trivial)")
 ASSUMPTIONS = [
     "the reference reader (own scanner + strconv.ParseInt/ParseUint/ParseFloat) is the meaning of a line: InfluxDB v1 "
@@ -39,7 +42,9 @@ MANIFEST = dict(
     engine="enumx",
     technique="bounded exhaustive enumeration of line-protocol texts (all written forms up to a length bound, all numeric "
               "spellings up to 2 digits per part, boundary integers, timestamps x precisions, all ordered line pairs) with a "
-              "differential oracle: independent strconv-based reference reader vs the real parser + index key + column record read back",
+              "differential oracle: independent strconv-based reference reader vs the real parser + index key + column record read back, "
+              "also after the sql->store row batch codec with a reused decoder (all ordered pairs of request bodies); black-box stage "
+              "over HTTP /write and /query incl. all ordered pairs of field sets of one series in one memtable",
     text="Every text of a finite line-protocol grammar is pushed through the real write-path parser "
          "(unmarshalWork.Unmarshal), the series index key and a column record, read back typed and compared with an "
          "independent reference reader of the documented grammar: valid line -> same measurement, tag set, timestamp, typed "
